@@ -262,12 +262,22 @@ func (vc *VC) mergeHeaps(b *ssa.BasicBlock, preds []*ssa.BasicBlock) *Heap {
 // per predecessor instead of once on the merged state: the obligations of each arm then see only
 // that arm's path.
 func (vc *VC) isDupLatch(b *ssa.BasicBlock) bool {
-	if len(b.Succs) != 1 || !b.Succs[0].Dominates(b) || len(b.Preds) < 4 || len(b.Instrs) > 12 {
+	if len(b.Preds) < 4 || len(b.Instrs) > 12 {
 		return false
+	}
+	isLatch := len(b.Succs) == 1 && b.Succs[0].Dominates(b)
+	isRet := len(b.Succs) == 0
+	if !isLatch && !isRet {
+		return false
+	}
+	for _, p := range b.Preds {
+		if b.Dominates(p) {
+			return false
+		}
 	}
 	for _, in := range b.Instrs {
 		switch in.(type) {
-		case *ssa.Phi, *ssa.BinOp, *ssa.Jump, *ssa.DebugRef, *ssa.UnOp, *ssa.Convert:
+		case *ssa.Phi, *ssa.BinOp, *ssa.Jump, *ssa.DebugRef, *ssa.UnOp, *ssa.Convert, *ssa.Return:
 		default:
 			return false
 		}
@@ -276,6 +286,7 @@ func (vc *VC) isDupLatch(b *ssa.BasicBlock) bool {
 }
 
 func (vc *VC) execDupLatch(b *ssa.BasicBlock) {
+	vc.dupRet = 0
 	var edges []string
 	for pi, p := range b.Preds {
 		if _, ok := vc.heapOut[p]; !ok {
@@ -385,12 +396,20 @@ func (vc *VC) execBlock(b *ssa.BasicBlock, _ *Heap) {
 // ---- loops ---------------------------------------------------------------
 
 func (vc *VC) loopSpec(n int) *LoopSpec {
+	var ls *LoopSpec
 	if vc.contract != nil && vc.contract.Loops != nil {
-		if ls := vc.contract.Loops[n]; ls != nil {
-			return ls
-		}
+		ls = vc.contract.Loops[n]
 	}
-	return &LoopSpec{}
+	if ls == nil {
+		ls = &LoopSpec{}
+	}
+	if vc.contract != nil && len(vc.contract.Preserves) > 0 {
+		// "preserves" clauses hold between function entry and every loop head as well
+		cp := *ls
+		cp.Invariants = append(append([]*Clause{}, ls.Invariants...), vc.contract.Preserves...)
+		return &cp
+	}
+	return ls
 }
 
 func (vc *VC) loopEnv(hdr *ssa.BasicBlock, at *ssa.BasicBlock, cur *Heap, subst map[*ssa.Phi]Term) *Env {
@@ -457,16 +476,12 @@ func (vc *VC) loopHead(b *ssa.BasicBlock, n int, h *Heap, reach string) *Heap {
 			if c == "$alloc" {
 				continue
 			}
-			srt := vc.compSort[c]
-			if freshOnly[c] && !strings.HasPrefix(srt, "(Array Int ") {
+			if freshOnly[c] {
+				// every write in the loop goes to objects allocated inside the loop: the component keeps its
+				// version (its part above the allocation watermark at loop entry is unconstrained anyway)
 				continue
 			}
-			old := vc.get(hh, c)
-			n := vc.havoc(hh, c)
-			if freshOnly[c] {
-				// every write in the loop goes to objects allocated inside the loop
-				vc.emit(fmt.Sprintf("(assert (forall ((r Int)) (! (=> (<= r %s) (= (select %s r) (select %s r))) :pattern ((select %s r)))))", a0, n, old, n))
-			}
+			vc.havoc(hh, c)
 		}
 		a1 := vc.fresh("$alloc", SInt)
 		vc.emit(fmt.Sprintf("(assert (>= %s %s))", a1, a0))
@@ -620,7 +635,7 @@ func (vc *VC) loopMods(hdr *ssa.BasicBlock) (map[string]bool, map[string]bool, b
 			}
 			if ms.FreshAll {
 				for c := range vc.compSort {
-					if c != "$alloc" && !strings.HasPrefix(c, "Gcalls_") {
+					if c != "$alloc" && !strings.HasPrefix(c, "Gcalls_") && c != "Gerr_n" {
 						mods[c] = true
 					}
 				}
@@ -1526,8 +1541,16 @@ func (vc *VC) retEnv(results []Term, h *Heap) *Env {
 
 func (vc *VC) checkReturn(b *ssa.BasicBlock, results []Term, h *Heap, reach string, sfxIn string) {
 	c := vc.contract
-	k := vc.counter("return")
-	sfx := fmt.Sprintf("@ret%d", k)
+	sfx := ""
+	if vc.dupSfx != "" {
+		if vc.dupRet == 0 {
+			vc.dupRet = vc.counter("return")
+		}
+		sfx = fmt.Sprintf("@ret%d%s", vc.dupRet, strings.Replace(vc.dupSfx, "@from", ".from", 1))
+	} else {
+		k := vc.counter("return")
+		sfx = fmt.Sprintf("@ret%d", k)
+	}
 	env := vc.retEnv(results, h)
 	if c != nil && c.Trusted != "" {
 		vc.trusted[vc.key+" (trusted contract): "+c.Trusted] = true
@@ -1598,7 +1621,7 @@ func (vc *VC) frameGoals(c *Contract, h *Heap) [][2]string {
 	a0 := vc.get(vc.entryHeap, "$alloc")
 	var out [][2]string
 	for _, comp := range sortedKeys(vc.compSortSet()) {
-		if comp == "$alloc" || strings.HasPrefix(comp, "Gcalls_") || strings.HasPrefix(comp, "Ghash_") {
+		if comp == "$alloc" || strings.HasPrefix(comp, "Gcalls_") || strings.HasPrefix(comp, "Ghash_") || comp == "Gerr_n" {
 			continue // ghost state is outside every frame
 		}
 		cur := vc.get(h, comp)
